@@ -1,6 +1,6 @@
 (* C08 property theorems: statements only, each closed by [exact]. *)
 From Boltons Require Import Lib.Prelude Lib.C08_Py Spec.C08_Spec Model.C08_Model
-  Proofs.C08_Machine Proofs.C08_Tree Proofs.C08_Cycle Proofs.C08_Witness.
+  Proofs.C08_Machine Proofs.C08_Tree Proofs.C08_Cycle Proofs.C08_Paths Proofs.C08_Witness.
 
 (* The stack machine (work stack + exit sentinels + id registry + new_items_stack
    + path) IS the bottom-up recursion: for every input term (shared and cyclic
@@ -62,6 +62,26 @@ Theorem C08_cycle_tuple_refuted :
                     = Done (ONode 0 KTuple [(KI 0, ONode 1 KList [(KI 0, OBlank KTuple)])]) m lg.
 Proof. exact tuple_cycle_witness. Qed.
 Print Assumptions C08_cycle_tuple_refuted.
+
+(* every (path, value) research reports for a nested item is retrievable with
+   get_path (and get_path returns that very object) - for every input graph
+   (sharing and cycles included) keyed as Python keys items, every query - unless
+   the path goes through a member of a set/frozenset: [crosses_set] is the guard the
+   checker's `known` bit uses for finding C08-set-path. *)
+Theorem C08_paths_partial : forall q root l,
+  wf_keys root ->
+  research q root = Ok l ->
+  forall p r, In (p, r) l -> p <> [KNone] ->
+    crosses_set (collect_defs root) root p = false ->
+    get_path root p = Ok r.
+Proof. exact research_paths_retrievable. Qed.
+Print Assumptions C08_paths_partial.
+
+Example C08_paths_inhabited :
+  wf_keys ex_cyclic /\ exists l, research (fun _ _ _ => true) ex_cyclic = Ok l
+    /\ In ([KT 1; KI 1; KI 0], RLeaf 5) l
+    /\ crosses_set (collect_defs ex_cyclic) ex_cyclic [KT 1; KI 1; KI 0] = false.
+Proof. exact ex_paths_ok. Qed.
 
 (* FULL STATEMENT (refuted): every (path, value) reported by research below the
    root is retrievable with get_path.  research({'a': {1, 2}}) reports
